@@ -30,8 +30,13 @@ CHECKS = {
   text='Bounded symbolic execution of the real MIME line index / raw views / FETCH accessors / partial slice: all byte '
        'strings of every length <= 9 (kernel), <= 8 (full parse + accessors), <= 4 with unbounded symbolic partial '
        'offsets, plus small multipart shapes; each path ends in an SMT proof query; unsat on the exhausted path tree '
-       '= fidelity for all 256^n inputs of those lengths.',
-  note=TRUST + 'Outside: lengths above the bound, maildir re-serialisation, header value parsing by the email package, BINARY decoding.',
+       '= fidelity for all 256^n inputs of those lengths. part_sizes: the octet count BODYSTRUCTURE announces for a part equals the '
+       'length of what BODY[part] returns (all inputs <= 5/7 bytes, small multipart shapes; one known finding). maildir_copy_content: COPY / '
+       'MOVE through the real maildir MailboxData with the Maildir object store stubbed (get_message_metadata returns no content, as '
+       'pymap\'s own method documents): the message in the destination holds the source content.',
+  note=TRUST + 'Outside: lengths above the bound, header value parsing by the email package, BINARY decoding, and what the standard '
+       'library mailbox/email modules do to the bytes on the maildir backend (observed, not encodable: APPEND re-serialises the message '
+       'and the file ends up with LF line endings - see DESIGN 7.2).',
   technique='symbolic execution of the real Python code with z3 (per-path SMT proof obligations), bounded by message length'),
  'C04': dict(
   text='Bounded symbolic execution with an unbounded symbolic UID counter: histories (<= 3 quick / 4 thorough) of APPEND, '
